@@ -337,11 +337,21 @@ fn c03_random_failure_next_to_an_explicit_partition() {
 // Queue: two in-flight messages with symbolic directions. Operation: symbolic choice of
 // partition / partition_oneway(a,b) / partition_oneway(b,a) / repair / repair_oneway(a,b) / (b,a).
 fn partition_op(op: u8, dirs: Option<(bool, bool)>) -> (bool, bool, bool) {
+    partition_op_h(op, dirs, false)
+}
+/// `held`: the link is held (both directions `State::Hold`) and the queued messages are parked
+/// (`DeliveryStatus::Hold`) - what `hold(a, b)` followed by two sends leaves behind.
+fn partition_op_h(op: u8, dirs: Option<(bool, bool)>, held: bool) -> (bool, bool, bool) {
     let now = instant(1000, 0);
     let mut link = Link::new(now);
-    link.state_a_b = any_state();
-    link.state_b_a = any_state();
-    kani::assume(!matches!(link.state_a_b, State::Hold) && !matches!(link.state_b_a, State::Hold));
+    if held {
+        link.state_a_b = State::Hold;
+        link.state_b_a = State::Hold;
+    } else {
+        link.state_a_b = any_state();
+        link.state_b_a = any_state();
+        kani::assume(!matches!(link.state_a_b, State::Hold) && !matches!(link.state_b_a, State::Hold));
+    }
     let (pre_ab, pre_ba) = (link.state_a_b, link.state_b_a);
     // `retain` with a symbolic keep/drop pattern compacts the queue with byte-wise swaps (8 M SAT
     // variables, out of memory): the one-way instances fix the directions of the two queued messages
@@ -349,8 +359,13 @@ fn partition_op(op: u8, dirs: Option<(bool, bool)>) -> (bool, bool, bool) {
         Some(d) => d,
         None => (kani::any(), kani::any()),
     };
-    push_sent(&mut link, 1, d0, DeliveryStatus::DeliverAfter(now + Duration::from_millis(5)));
-    push_sent(&mut link, 2, d1, DeliveryStatus::DeliverAfter(now + Duration::from_millis(6)));
+    if held {
+        push_sent(&mut link, 1, d0, DeliveryStatus::Hold);
+        push_sent(&mut link, 2, d1, DeliveryStatus::Hold);
+    } else {
+        push_sent(&mut link, 1, d0, DeliveryStatus::DeliverAfter(now + Duration::from_millis(5)));
+        push_sent(&mut link, 2, d1, DeliveryStatus::DeliverAfter(now + Duration::from_millis(6)));
+    }
     match op {
         0 => link.explicit_partition(),
         1 => link.partition_oneway(IP_A, IP_B),
@@ -394,6 +409,15 @@ crate::verif_proof! { unwind = 5;
 fn c03_partition_drops_all_inflight() {
     let (d0, d1, _) = partition_op(0, None);
     kani::cover!(d0 != d1, "messages in both directions dropped");
+}
+}
+// a message that is parked on a HELD link when the partition is imposed is in flight too: it is
+// dropped, not kept for a later release (seed C12-6)
+// @verif id=C03,C08,C12 tier=quick role=partition_ops timeout=900 desc=partition-of-a-held-link
+crate::verif_proof! { unwind = 5;
+fn c03_partition_drops_messages_parked_on_a_held_link() {
+    let (d0, d1, _) = partition_op_h(0, None, true);
+    kani::cover!(d0 != d1, "held messages in both directions dropped");
 }
 }
 // @verif id=C03 tier=quick role=partition_ops timeout=900 desc=repair_oneway(b,a)
